@@ -180,7 +180,7 @@ func c06G1(c *Ctx, r *Report, a *Anchors) {
 		if fn == a.list {
 			r.floor(rule, "in-loop error sources in the list resolver", n, 5)
 			// index identity
-			c06IndexIdentity(c, r, fn, e)
+			c06IndexIdentity(c, r, fn, e, a)
 		} else {
 			r.floor(rule, "in-loop error sources in the argument builder", n, 1)
 		}
@@ -188,7 +188,7 @@ func c06G1(c *Ctx, r *Report, a *Anchors) {
 }
 
 // c06IndexIdentity: every index prefix inside a loop uses the SSA value that indexes the source.
-func c06IndexIdentity(c *Ctx, r *Report, fn *ssa.Function, e *pfxEngine) {
+func c06IndexIdentity(c *Ctx, r *Report, fn *ssa.Function, e *pfxEngine, a *Anchors) {
 	n := 0
 	for li, l := range e.loops {
 		// element-index candidates
@@ -235,6 +235,49 @@ func c06IndexIdentity(c *Ctx, r *Report, fn *ssa.Function, e *pfxEngine) {
 				}
 				r.check("C06.G1", fmt.Sprintf("%s: loop %d index prefix #%d uses the element index", fnName(fn), li+1, k), in.Pos(), same,
 					fmt.Sprintf("the value given to .in(%s) is not the value that indexes the source list in this loop", shortPath(vpath(pc.arg))))
+				// the errors that receive the index are those of the type dispatcher applied to the element
+				// type: only the dispatcher re-enters the list resolver for an inner list, which is what gives
+				// the members of [[T]] their own inner index
+				fromDispatch := pc.recv != nil
+				why := ""
+				if pc.recv != nil && !isErrSlice(pc.recv.Type()) && !c.isNamed(pc.recv.Type(), "Errors") {
+					continue // a single error made from the accessor's failure: it has no inner positions
+				}
+				if pc.recv != nil {
+					leaves, _ := phiLeaves(stripIface(pc.recv))
+					for _, lf := range leaves {
+						v := lf.val
+						if ct, ok := v.(*ssa.ChangeType); ok {
+							v = ct.X
+						}
+						if k, ok := v.(*ssa.Const); ok && k.Value == nil {
+							continue
+						}
+						ex, ok := v.(*ssa.Extract)
+						call, ok2 := (ssa.Value)(nil), false
+						if ok {
+							call, ok2 = ex.Tuple.(*ssa.Call)
+						}
+						if !ok || !ok2 || call.(*ssa.Call).Call.StaticCallee() != a.dispatch {
+							fromDispatch = false
+							why = shortPath(vpath(v))
+							continue
+						}
+						// its type argument is the list's element type
+						okT := false
+						for _, arg := range call.(*ssa.Call).Call.Args {
+							if _, o, f, isF := loadOfField(stripIface(arg)); isF && o == "List" && f == "Base" {
+								okT = true
+							}
+						}
+						if !okT {
+							fromDispatch = false
+							why = "the dispatcher is not applied to the list's element type"
+						}
+					}
+				}
+				r.check("C06.G1", fmt.Sprintf("%s: loop %d index prefix #%d is applied to the errors of the type dispatcher for the element type", fnName(fn), li+1, k), in.Pos(), fromDispatch,
+					"the element's errors come from "+why+", not from a static call of the type dispatcher on List.Base: an inner list resolved any other way gets no inner index, so a failing member of [[T]] is reported at [field, i] instead of [field, i, j] and takes its whole row with it")
 			}
 		}
 	}
@@ -369,6 +412,43 @@ func c06G3(c *Ctx, r *Report, a *Anchors) {
 		}
 	}
 	r.floor("C06.G3", "appends in the error adder", n, 2)
+	// the group handed in by the resolver is read, never rewritten: a helper that filters or expands it in
+	// place (append into group[:0]) overwrites members that have not been read yet, so one member is lost
+	// and another reported twice
+	eng := newEffEngine(c)
+	eng.run(fn)
+	nG := 0
+	for _, ci := range callsIn(fn) {
+		g := ci.Common().StaticCallee()
+		if g == nil || !c.inPkg(g) || g == fn {
+			continue
+		}
+		for i, arg := range ci.Common().Args {
+			if !(isErrSlice(arg.Type()) || c.isNamed(arg.Type(), "Errors")) {
+				continue
+			}
+			u, ok := arg.(*ssa.UnOp)
+			if !ok {
+				continue
+			}
+			if _, isAl := u.X.(*ssa.Alloc); !isAl {
+				continue
+			}
+			nG++
+			sum := eng.sums[g]
+			bad := ""
+			if sum != nil {
+				for _, ef := range sum.effects {
+					if writeKinds[ef.kind] && ef.target.kind == rParam && ef.target.idx == i {
+						bad = fmt.Sprintf("%s at %s", ef.kind, c.pos(ef.pos))
+					}
+				}
+			}
+			r.check("C06.G3", fmt.Sprintf("%s: group handed to %s is not modified", fnName(fn), fnName(g)), ci.Pos(), bad == "",
+				"the helper writes into the error group it was given ("+bad+"): members not yet visited are overwritten, so the response has a duplicate entry for one member and none for another")
+		}
+	}
+	_ = nG
 }
 
 func firstPos(a, b token.Pos) token.Pos {
